@@ -2,6 +2,7 @@
 //!   <input numbers>\t<implementation output numbers>\t<signature>
 //! The input numbers start with the component number understood by `mrun` (the extracted model).
 mod codec;
+mod robs_deque;
 mod robs_vec;
 mod rng;
 mod transport;
@@ -74,6 +75,7 @@ fn main() {
     std::panic::set_hook(Box::new(|_| {}));
     match comp {
         "codec" => codec::run(seed, count, &extra, &mut out),
+        "robs_deque" => robs_deque::run(seed, count, &extra, &mut out),
         "robs_vec" => robs_vec::run(seed, count, &extra, &mut out),
         _ => {
             eprintln!("unknown component {comp}");
